@@ -5,9 +5,13 @@
     scalar 0..n+1 x every point for the unknown-point multiplier, every scalar for the base-point multiplier and
     every (k,l) pair for chosen (P,Q) for twin multiplication, computes each expectation with the textbook affine
     law of EcGroup and checks the group axioms on its own rows.  harness/ec_drv.c is compiled once per
-    CONFIGURATION of include/math/elliptic_curve.h and must return exactly those points.
+    CONFIGURATION of include/math/elliptic_curve.h and must return exactly those points.  One curve per special-cased
+    shape (a = -3: E8M3X, a = 0: E8ZX of specs/ec/EcCurvesX, generic a: E8C4) holds points with x = 0 and with y = 0; the
+    whole group x group add / sub table and every doubling of every 8-bit curve run in EVERY build of both tiers.
 (C) the 32 built-in curves: calls are logged and TLC (EcTrace: division-free relations of EcRel over BigNat)
     decides every logged result; scalar multiples are compared with a ladder whose single steps are decided too.
+    Where b is a quadratic residue TLC computes the point (0, sqrt b) (specs/ec/EcX0, Tonelli-Shanks over BigNat); every
+    build doubles / adds it on every such curve, its multiples go through the multipliers on the build's own curves.
 Python only renders numbers, runs processes and compares values that TLC produced."""
 import os, re, json, random, time, itertools, threading, subprocess, shutil
 from concurrent.futures import ThreadPoolExecutor
@@ -20,8 +24,10 @@ TWIN = {0: "BIN", 1: "FXP_UNKPT", 2: "JOINT", 3: "INTER"}
 TABLE_ALGOS = (2, 3, 4)
 SUITE = dict(digit=64, mulldiv=1, proj=1, mix=1, rdbl=1, fxp=4, fxpw=9, unk=3, unkw=2, twin=3)   # tests/ecdsa/main.c
 TOY8 = ["E8M3", "E8G", "E8Z", "E8C4"]
+TOY8X = ["E8M3X", "E8ZX"]           # specs/ec/EcCurvesX: a = -3 / a = 0 groups that contain points with x = 0 and with y = 0
+SHAPES = ["E8M3X", "E8ZX", "E8C4"]  # one curve per special-cased shape (a = -3, a = 0, generic a), each with both kinds of point
 TOYBIG = ["E13", "E16M3"]
-ALIAS = {"E8M3nf": "E8M3"}          # same curve loaded without EC_CURVE_FLAG_A_M3 (generic-a code path with a = p-3)
+ALIAS = {"E8M3nf": "E8M3", "E8M3Xnf": "E8M3X"}   # same curve loaded without EC_CURVE_FLAG_A_M3 (generic-a code path with a = p-3)
 
 # ------------------------------------------------------------------ configurations
 def cfg_name(c):
@@ -30,7 +36,10 @@ def cfg_name(c):
         "+rdbl" if c["rdbl"] else "", FXP[c["fxp"]], c["fxpw"], UNK[c["unk"]], c["unkw"], TWIN[c["twin"]])
 
 def cfg_defs(c):
-    d = ["-DBN_DIGIT_BIT_CNT=%d" % c["digit"], "-DBN_BIT_LEN=1408"]
+    # capacity: the widest temporaries (ec_point_proj_dbl_n) take 2 * m + 3 digits = 1426 bits for secp521r1 with 128-bit digits;
+    # 1408 (tests/ecdsa/main.c, 64-bit digits: 1234 needed) would make bn_init refuse that curve with EINVAL - a capacity the
+    # builder chooses, not part of the property - so the 128-bit-digit builds get the next multiple of the digit size
+    d = ["-DBN_DIGIT_BIT_CNT=%d" % c["digit"], "-DBN_BIT_LEN=%d" % (1536 if c["digit"] == 128 else 1408)]
     if c["mulldiv"] and c["digit"] != 128: d.append("-DBN_CC_MULL_DIV=1")
     if c["proj"]: d.append("-DEC_USE_PROJECTIVE=1")
     if c["mix"]: d.append("-DEC_PROJ_ADD_MIX=1")
@@ -206,10 +215,11 @@ def generate_corpus(ctx, rng):
     for nm in TOY8:
         jobs.append(("EcGenTwin", nm, gen_cfg([("CurveNames", tset([nm])), ("PQ", tset(codes)), ("LStride", 8 if ctx.quick else 4), ("Heavy", heavy)],
                                               ["Closed", "Corners", "Diagonal", "AllAgree", "RowSteps"])))
-    for nm in TOY8:
+    for nm in TOY8 + TOY8X:
         jobs.append(("EcGenPairs", nm, gen_cfg([("CurveNames", tset([nm])), ("Heavy", heavy)],
                      ["WholeGroup", "Closed", "Commutes", "SubUndoes", "Neutral", "MulCorners", "DblNIsMul", "RelAgrees",
                       "MulAgrees", "Assoc"])))
+    jobs.sort(key=lambda j: 0 if j[0] == "EcGenPairs" else 1)      # the long jobs first: 4 TLC processes stay busy to the end
     results = {}
     def run(j):
         mod, nm, cfgtext = j
@@ -303,7 +313,7 @@ def make_corpus(ctx, cases, rng):
                 alias = name != nm
                 if mod == "EcGenPairs":
                     P = c["P"]; Q = c["Q"]; ks = list(range(len(c["mul"]))); qs = " ".join(pt(q) for q in Q)
-                    exc = (not P) or P[1] == 0 or c["idx"] <= 3
+                    exc = (not P) or P[1] == 0 or P[0] == 0 or c["idx"] <= 3
                     for cap in caps():
                         C.add("add %s %s %s %s" % (name, cap, pt(P), qs), [pt(r) for r in c["add"]],
                               op="add", curve=name, cap=cap, P=P, args=Q, exc=exc)
@@ -332,6 +342,13 @@ def make_corpus(ctx, cases, rng):
                     if (not c["bp"]) or l % 4 == 0 or exc:
                         C.add("twin %s D %s %s %x %s" % (name, pt(P), pt(Q), l, hexs(ks)), exp,
                               op="twin", curve=name, cap="D", P=P, Q=Q, l=l, args=ks, exc=exc)
+    # every special-cased curve shape must bring its special operands: P + P (distinct objects), 2P (one object) and k*P
+    # for a P with x = 0 and for a P with y = 0, and the neutral element as either operand
+    for nm in SHAPES + [a for a, b in ALIAS.items() if b in SHAPES]:
+        for what, sel in (("x = 0", lambda P: P and P[0] == 0), ("y = 0", lambda P: P and P[1] == 0), ("infinity", lambda P: not P)):
+            for op in ("add", "dbl", "mul"):
+                if not any(m["curve"] == nm and m["op"] == op and sel(m["P"]) and (op != "add" or m["P"] in m["args"]) for m in C.meta):
+                    raise common.Infra("corpus lacks the %s row of a point with %s on %s" % (op, what, nm))
     return C
 
 # ------------------------------------------------------------------ keys
@@ -420,12 +437,15 @@ def unk_share(cfg):
 
 def select_rows(ctx, cfg, bi, C, rng):
     """which rows this build runs.  The suite's configuration (bi = 0) runs everything.  The other builds run add / sub /
-    dbl / dbl_n everywhere, the multiplier rows (mul, mulbp, twin) of the 8-bit curves on one (quick) or two (thorough)
-    of the four curves, rotating with the build number, E13 always and E16M3 always (thorough) or when the digit size
-    lets the comb / window code see its scalars (quick).  Multiplier rows that build a wide table per call, and the
+    dbl / dbl_n everywhere (both tiers: the WHOLE group x group add table of every 8-bit curve, affine and projective; quick:
+    the sub table only on the build's own curves and for the special operands elsewhere), the
+    multiplier rows (mul, mulbp, twin) of the 8-bit curves on one (quick) or two (thorough) of the four EcCurves curves,
+    rotating with the build number, plus the multiples of the special points of the EcCurvesX curves, E13 always and E16M3
+    always (thorough) or when the digit size lets the comb / window code see its scalars (quick).  Multiplier rows that build a wide table per call, and the
     multiplier rows of 128-bit-digit builds in the thorough tier, are sampled (seeded); stats["rows"] says how many ran."""
     e = eff(cfg)
     allowed = None; mult_on = None
+    xnames = set(TOY8X) | {a for a, b in ALIAS.items() if b in TOY8X}
     if bi > 0:
         if ctx.quick:
             one = TOY8[(bi - 1) % 4]
@@ -438,9 +458,13 @@ def select_rows(ctx, cfg, bi, C, rng):
     slow = 0.5 if (cfg["digit"] == 128 and bi > 0 and not ctx.quick) else 1.0    # no double-digit type: 3x slower builds
     sel = []
     for i, m in enumerate(C.meta):
-        if allowed is not None and m["curve"] not in allowed: continue
         mult = m["op"] in ("mul", "mulbp", "twin", "twinbp")
-        if mult_on is not None and mult and m["curve"] not in mult_on: continue
+        # the multiples of the special points (x = 0, y = 0, infinity) of the special-shape curves: every build
+        special = m["op"] == "mul" and m["exc"] and m["curve"] in xnames
+        if allowed is not None and mult and m["curve"] not in allowed and not special: continue
+        # quick, curves this build does not multiply on: P - Q is P + (-Q) of the add table; the sub rows of the special operands stay
+        if allowed is not None and m["op"] == "sub" and m["curve"] not in allowed and not m["exc"]: continue
+        if mult_on is not None and mult and m["curve"] not in mult_on and not special: continue
         if slow < 1.0 and mult and not m["exc"] and rng.random() > slow: continue
         if share < 1.0 and (m["op"] == "mul" or (m["op"] == "twinbp" and e["twin_eff"] == 1)):
             if rng.random() > share * (2 if m["exc"] else 1): continue
@@ -583,14 +607,50 @@ def pseudo_meta0(kind, x):
     if kind == "lad": return {"op": "add", "P": hp(x[3]), "args": [hp(x[3])]}
     raise common.Infra("pseudo_meta " + kind)
 
-def modec(ctx, cfg, exe, names, rng, full_names, nsample):
+def unlimbs13(ls):
+    v = 0
+    for i, l in enumerate(ls): v |= l << (13 * i)
+    return v
+
+def x0_points(ctx, exe, names, d):
+    """{curve name: "0,<y>"} for the built-in curves whose b is a quadratic residue.  The curve parameters are read from
+    the library's table (inputs); the root y of y^2 = b is computed by TLC (specs/ec/EcX0, Tonelli-Shanks over BigNat)."""
+    cres, _ = drive(exe, ["curve %s" % n for n in names])
+    path = os.path.join(d, "x0_curves.ndjson"); listed = []
+    with open(path, "w") as f:
+        for n, ln in zip(names, cres):
+            if not isinstance(ln, str): continue              # a curve that does not load is reported by modec_ops
+            kv = dict(t.split("=") for t in ln.split()[1:])
+            if int(kv["rc"]) != 0: continue
+            f.write(json.dumps({"name": n, "p": limbs13(kv["p"]), "b": limbs13(kv["b"])}) + "\n"); listed.append(n)
+    if not listed: return {}
+    r = tlc_job("EcX0", "SPECIFICATION Spec\nINVARIANT RootOk\nCONSTRAINT Emit\nCHECK_DEADLOCK FALSE\n", "x0", env={"TRACE": path}, timeout=900)
+    ctx.tlc_stats(r, "EcX0 (roots of b on the built-in curves)")
+    if r.rc != 0:
+        raise common.Infra("EcX0 failed (spec error, not a code verdict): %s\n%s" % (r.violation, r.out[-2500:]))
+    out = {}
+    rows = common.tlc_printed_json(r.out)
+    if len(rows) != len(listed):
+        raise common.Infra("EcX0 printed %d rows for %d curves" % (len(rows), len(listed)))
+    for i, nm, y in rows:
+        if nm != listed[i - 1]: raise common.Infra("EcX0 rows out of order")
+        if y: out[nm] = "0,%x" % unlimbs13(y)
+    ctx.log("x = 0: b is a quadratic residue on %d of the %d built-in curves (roots by TLC in %.0fs)" % (len(out), len(listed), r.wall))
+    return out
+
+def modec(ctx, cfg, exe, names, rng, full_names, nsample, x0=None, x0_only=()):
     """drive the library on built-in curves and assemble the events TLC will decide.
     Ladders of curves in `full_names` are certified step by step; the others at `nsample` seeded positions.
+    x0: {curve: point with x = 0} (from TLC); curves in `x0_only` are loaded for the add / sub / dbl calls on that point alone.
     returns (failures, events, evmeta, stats)"""
-    curves, fails = modec_ops(exe, cfg, names, rng, ctx)
-    stats = {"config": cfg_name(cfg), "curves": len(curves), "events": 0, "validate": {}, "ladder_steps": 0, "ladder_steps_decided": 0}
-    vres, _ = drive(exe, ["validate %s" % n for n in curves], timeout=900, max_crashes=40)
-    for n, r in zip(list(curves), vres):
+    x0 = x0 or {}
+    x0_only = [n for n in x0_only if n in x0 and n not in names]
+    curves, fails = modec_ops(exe, cfg, list(names) + x0_only, rng, ctx)
+    stats = {"config": cfg_name(cfg), "curves": len(curves) - len(x0_only), "x0_curves": len([n for n in curves if n in x0]),
+             "events": 0, "validate": {}, "ladder_steps": 0, "ladder_steps_decided": 0}
+    vnames = [n for n in curves if n not in x0_only]
+    vres, _ = drive(exe, ["validate %s" % n for n in vnames], timeout=900, max_crashes=40)
+    for n, r in zip(vnames, vres):
         # the only group computation of ec_curve_validate is n*G through the unknown-point multiplier
         longn = int(curves[n]["n"], 16).bit_length() > int(curves[n]["m"])
         mk = lambda kind: fail_key(cfg, {"op": "mul", "P": [1, 1], "args": [2], "long": longn}, 0, kind)
@@ -611,6 +671,7 @@ def modec(ctx, cfg, exe, names, rng, full_names, nsample):
     info = {}
     l1 = []
     for n, f in curves.items():
+        if n in x0_only: continue
         nn = int(f["n"], 16); G = "%s,%s" % (f["gx"], f["gy"]); k1 = rng.randrange(3, nn - 1)
         info[n] = (nn, G, k1)
         l1.append("mulbp %s D %s" % (n, hx(k1)))
@@ -646,6 +707,21 @@ def modec(ctx, cfg, exe, names, rng, full_names, nsample):
             lad(G, k); lad(P1, l)
             l2.append(("twinbp %s M %s %s %s" % (n, P1, hx(l), hx(k)), n, "twinbp", (G, k), (P1, l)))
             l2.append(("twin %s D %s %s %s %s" % (n, G, P1, hx(l), hx(k)), n, "twin", (G, k), (P1, l)))
+        if n in x0:                                                   # the point with x = 0: its multiples through the multiplier
+            P0 = x0[n]
+            for k in (2, 3, 5, kr):
+                lad(P0, k)
+                l2.append(("mul %s D %s %s" % (n, P0, hx(k)), n, "unk", P0, k))
+            lad(P0, lr); lad(G, 2)
+            l2.append(("twin %s D %s %s %s %s" % (n, G, P0, hx(lr), hx(2)), n, "twin", (G, 2), (P0, lr)))
+    for n, f in curves.items():                                       # the point with x = 0: P0 + P0 (equal copy), 2*P0 (one object), ...
+        if n not in x0: continue
+        P0 = x0[n]; G = "%s,%s" % (f["gx"], f["gy"])
+        for a, b in ((P0, P0), (P0, G), (G, P0), (P0, "inf")):
+            l2.append(("add %s D %s %s" % (n, a, b), n, "add", a, b))
+            l2.append(("sub %s D %s %s" % (n, a, b), n, "sub", a, b))
+        l2.append(("add %s M %s %s" % (n, P0, P0), n, "add", P0, P0))
+        l2.append(("dbl %s D %s" % (n, P0), n, "dbl", P0, None)); l2.append(("dbl %s M %s" % (n, P0), n, "dbl", P0, None))
     # one process per entry point, so that memory damage done by one of them cannot surface as a crash of another
     r2 = [None] * len(l2)
     for grp in (("lad", "add", "sub", "dbl"), ("bp",), ("unk",), ("twinbp",), ("twin",)):
@@ -825,6 +901,12 @@ def run(ctx):
     ai = pfut.result()
     if ai: builds.append(ai)
     bex.shutdown()
+    res, _ = drive(builds[0][1]["fast"], ["curves"])
+    names = res[0].split()[1:] if isinstance(res[0], str) else []
+    if len(names) != 32:
+        raise common.Infra("expected 32 built-in curves, driver lists %d" % len(names))
+    x0ex = ThreadPoolExecutor(max_workers=1)               # TLC finds the x = 0 points of the built-in curves while mode B runs
+    x0f = x0ex.submit(x0_points, ctx, builds[0][1]["fast"], names, d)
     # ---- mode B on every build
     allstats = []
     def job(a):
@@ -838,10 +920,6 @@ def run(ctx):
             ctx.log("build %-66s rows=%d results=%d fails=%s %s" % (st["config"], st["rows"], st["evaluations"],
                     st.get("fail_counts") or len(fails), st.get("op_wall_s")))
     # ---- mode C: built-in curves
-    res, _ = drive(builds[0][1]["fast"], ["curves"])
-    names = res[0].split()[1:] if isinstance(res[0], str) else []
-    if len(names) != 32:
-        raise common.Infra("expected 32 built-in curves, driver lists %d" % len(names))
     plan = []
     # curves whose ladders are certified step by step (the others: seeded sample of the steps of every ladder)
     full0 = set(rng.sample(names[:24], 1)) if ctx.quick else set(rng.sample(names, 10))
@@ -853,10 +931,13 @@ def run(ctx):
             sub = sorted({names[(bi * 7 + j * 11) % 32] for j in range(k)}, key=names.index)
             full = set()
         plan.append((c, exes["asan"] if (bi == 0 and not ctx.quick) else exes["fast"], sub, full))
+    x0 = x0f.result(); x0ex.shutdown()
+    ctx.cov["builtin_curves_with_x0_point"] = sorted(x0)
     def cjob(p):
         c, exe, sub, full = p
         r = random.Random("%s/%s/C" % (ctx.seed, cfg_name(c)))
-        return p, modec(ctx, c, exe, sub, r, full, 3 if ctx.quick else 12)
+        # every build meets the x = 0 point of EVERY built-in curve that has one (add / sub / dbl); its multiples on the build's own curves
+        return p, modec(ctx, c, exe, sub, r, full, 3 if ctx.quick else 12, x0=x0, x0_only=names)
     t0 = time.time()
     with ThreadPoolExecutor(max_workers=4) as ex:
         modec_out = list(ex.map(cjob, plan))
@@ -897,4 +978,9 @@ def run(ctx):
         "32 KiB of stack are filled with 0xA5 before each call so that reads of uninitialised locals give reproducible results",
         "each configuration is built twice: -O2 without sanitizers (whole selection of rows) and -O1 ASan+UBSan (seeded sample of them)",
         "dbl_n with n = 0 is not exercised (no caller uses it)",
+        "BN_BIT_LEN = 1408 as in tests/ecdsa/main.c; 1536 in the builds with 128-bit digits (2 * 521 + 3 digits = 1426 bits are needed there: with 1408 "
+        "ecdsa_curve_from_str(secp521r1) fails with EINVAL from bn_init in ec_point_proj_dbl_n, an explicit capacity error, not a wrong point)",
+        "special-shape curves E8M3X (a = p-3, h = 2) and E8ZX (a = 0, h = 6): add / sub / dbl / dbl_n / unknown-point and base-point multiples only (no twin rows); "
+        "their multiplier rows run in the suite's configuration, the multiples of their special points (x = 0, y = 0, infinity) in every build",
+        "built-in curves: the x = 0 operand exists on the curves whose b is a quadratic residue (ctx.cov['builtin_curves_with_x0_point']); the root is computed by TLC from the p, b the library's table reports",
     ]
